@@ -14,6 +14,7 @@ import (
 	"os"
 	"os/exec"
 	"path/filepath"
+	"regexp"
 	"sort"
 	"strconv"
 	"strings"
@@ -39,6 +40,21 @@ type KnownFinding struct {
 	Detail   string `json:"detail,omitempty"` // substring that must occur in the violation detail
 	What     string `json:"what"`
 	Commit   string `json:"commit,omitempty"`
+	Input    string `json:"input_regex,omitempty"` // regexp over the decoded "input" observation of the counterexample
+	re       *regexp.Regexp
+}
+
+// obsInput returns the decoded "input" observation recorded before the violation, if any.
+func obsInput(v *Violation) (string, bool) {
+	for _, o := range v.Obs {
+		if strings.HasPrefix(o, "input=") {
+			b, err := hex.DecodeString(o[len("input="):])
+			if err == nil {
+				return string(b), true
+			}
+		}
+	}
+	return "", false
 }
 
 func loadKnown() []KnownFinding {
@@ -82,6 +98,15 @@ func (k *KnownFinding) matches(prop, harness string, v *Violation) bool {
 	}
 	if k.Detail != "" && !strings.Contains(v.Detail, k.Detail) {
 		return false
+	}
+	if k.Input != "" {
+		if k.re == nil {
+			k.re = regexp.MustCompile(k.Input)
+		}
+		in, ok := obsInput(v)
+		if !ok || !k.re.MatchString(in) {
+			return false
+		}
 	}
 	return true
 }
@@ -189,6 +214,14 @@ func cmdCheck(argv []string) int {
 			if w := os.Getenv("GOSYM_WORKERS"); w != "" {
 				spec.Workers, _ = strconv.Atoi(w)
 			}
+			spec.classify = func(v *Violation) string {
+				for i := range known {
+					if known[i].matches(prop, spec.Name, v) {
+						return fmt.Sprintf("known#%d", i)
+					}
+				}
+				return ""
+			}
 			sum := Explore(ld.Prog, entry, spec)
 			results = append(results, &specResult{spec: spec, sum: sum, entrySig: entry.Signature})
 			fmt.Printf("harness=%s entry=%s args=%v paths=%d ok=%d assume-false=%d inconclusive=%d violations=%d queries=%d solver=%.1fs wall=%.1fs\n",
@@ -210,7 +243,7 @@ func cmdCheck(argv []string) int {
 			// one representative per violation group
 			seen := map[string]bool{}
 			for _, v := range sum.Violations {
-				key := v.Kind + "|" + v.Label
+				key := v.Kind + "|" + v.Label + "|" + spec.classify(v)
 				if seen[key] {
 					continue
 				}
@@ -383,6 +416,9 @@ func saveReplay(prop string, c *replayCase) string {
 		doc["label"] = c.viol.Label
 		doc["detail"] = c.viol.Detail
 		doc["schedule"] = c.viol.Sched
+		if in, ok := obsInput(c.viol); ok {
+			doc["input"] = in
+		}
 	}
 	b, _ := json.MarshalIndent(doc, "", " ")
 	h := sha256.Sum256(b)
